@@ -232,9 +232,9 @@ def run_shard(cfg):
     rec.extra['first_use'] = zoo.warm_up(cfg['k'])
     U = zoo.universe(UNIV)
     idx = 0
-    from .c05 import big_trees
+    from .c05 import big_trees, huge_trees
 
-    for j, d in enumerate(big_trees()):
+    for j, d in enumerate(big_trees() + huge_trees()):
         if j % cfg["of"] == cfg["k"]:
             rec.rank = 10**9 + j
             rec.count("big_trees")
